@@ -333,6 +333,11 @@ def main(argv):
         "wall_s": round(wall, 2),
         "violations": len(violation_lines),
     }
+    if hasattr(mod, "exhaustive"):
+        space = mod.exhaustive(tier)
+        if space:
+            ev["coverage"]["exhaustive"] = True
+            ev["coverage"]["exhaustive_space"] = space
     core.write_evidence(prop_id, ev)
     print(f"{prop_id} {tier}: theorems {discharged}/{len(thms)}, cases {evaluations}"
           f" (+{searched} search), disagreements {len(disagreements)}, "
